@@ -202,6 +202,9 @@ def handle (prop op : String) (args : List Sexp) (impl : Sexp) : Reply :=
       | _ => .error []
     ⟨enc m == enc implR, enc m, impl != sPanic && evalCheckedOk x pv implR, "spec"⟩
   -- C03 connectives ---------------------------------------------------------------------------
+  | "and.self", [a] => bin a a (· && ·) Expr.mkAnd Table.mkAnd Bdd.mkAnd
+  | "or.self", [a] => bin a a (· || ·) Expr.mkOr Table.mkOr Bdd.mkOr
+  | "xor.self", [a] => bin a a (· != ·) Expr.mkXor Table.mkXor Bdd.mkXor
   | "and", [a, b] => bin a b (· && ·) Expr.mkAnd Table.mkAnd Bdd.mkAnd
   | "or", [a, b] => bin a b (· || ·) Expr.mkOr Table.mkOr Bdd.mkOr
   | "xor", [a, b] => bin a b (· != ·) Expr.mkXor Table.mkXor Bdd.mkXor
